@@ -19,7 +19,7 @@ class History:
 
     def __init__(self, binary, names, tree, lock=None, structured=False, use_cache=None, base=0, maxid=None,
                  pad=0, crlf=False, unicode_prelude=False, bad=(), extra_files=None, tmp_on_other_fs=False,
-                 label=None, config_class="ok", structured_key="explicit", extensions=None):
+                 label=None, config_class="ok", structured_key="explicit", extensions=None, opaque=False):
         self.binary = binary
         self.names = list(names)
         self.structured = structured
@@ -30,6 +30,7 @@ class History:
         self.proj = bl.Project(structured=(structured if structured_key == "explicit" else None), use_cache=use_cache,
                                tmp_on_other_fs=tmp_on_other_fs, extensions=extensions)
         self.config_class = config_class
+        self.opaque = opaque      # large trees: the statement-level abstraction is not handed to TLC (quadratic operators)
         self.use_cache = use_cache
         self.events = []
         self.runs = []          # (index of start event, index of end event, Run, plan, mode)
@@ -120,6 +121,8 @@ class History:
         return min(v, self.maxid + 50) if self.base else min(v, BIGMAX + 50)
 
     def _abs_tree(self, tree):
+        if self.opaque:
+            return [[] for _ in self.names]
         out = []
         for n in self.names:
             out.append([{"uid": s["uid"], "ref": self.abs_id(s["ref"]) if s["ref"] is not None else NOREF,
@@ -203,7 +206,7 @@ class History:
         exp_missing = self.expected_missing()
         readable = [n for n in self.names if self.present[n] and n not in self.bad]
         start_idx = len(self.events)
-        self.events.append({"ev": "start", "mode": mode, "cache": cache, "any_readable": bool(readable), "plan": plan,
+        self.events.append({"ev": "start", "mode": mode, "cache": cache, "any_readable": bool(readable) and not self.opaque, "plan": plan,
                             "must_fail": self.config_class != "ok"})
         r = bl.run_breadlog(self.binary, self.config_arg, check=(mode == "check"), tmpdir=P.tmp,
                             roots=(P.proj, P.tmp), plan=plan, timeout=timeout, cwd=cwd, logdir=P.tmp)
@@ -265,7 +268,8 @@ class History:
                     if m:
                         line_uid[(pth, ln)] = int(m.group(5))
             for (f, ln, col) in r.missing_reports():
-                reported.append(line_uid.get((f, ln), -7))
+                if not self.opaque:
+                    reported.append(line_uid.get((f, ln), -7))
             t = r.total_missing()
             total = t if t is not None else -1
         pos_match = True
